@@ -29,6 +29,21 @@ pub mod errs {
 pub fn my_err(s: &str) -> MyErr { ERRLOG.with(|l| l.borrow_mut().push(s.to_string())); MyErr(format!("<{}>", s)) }
 pub fn rejected(s: &str) -> Rejected<String> { ERRLOG.with(|l| l.borrow_mut().push(s.to_string())); Rejected(s.to_string(), s.len()) }
 pub fn boxed(s: &str) -> Box<dyn std::error::Error + Send + Sync> { ERRLOG.with(|l| l.borrow_mut().push(s.to_string())); Box::new(MyErr(s.to_string())) }
+// user functions whose names a template might also want to use for its own helpers
+pub fn not_found(s: &str) -> MyErr { my_err(s) }
+pub fn parse_error(s: &str) -> MyErr { my_err(s) }
+pub fn from_str(s: &str) -> MyErr { my_err(s) }
+pub fn try_from(s: &str) -> MyErr { my_err(s) }
+pub fn default(s: &str) -> MyErr { my_err(s) }
+pub fn fallback(s: &str) -> MyErr { my_err(s) }
+pub fn error(s: &str) -> MyErr { my_err(s) }
+pub fn phf(s: &str) -> MyErr { my_err(s) }
+pub fn parse_err(s: &str) -> MyErr { my_err(s) }
+// functions that are generic over their argument
+#[derive(Debug, PartialEq, Clone)]
+pub struct FromErr(pub String);
+impl<'a> From<&'a str> for FromErr { fn from(s: &'a str) -> Self { ERRLOG.with(|l| l.borrow_mut().push(s.to_string())); FromErr(format!("from:{}", s)) } }
+pub fn lenient<S: AsRef<str>>(s: S) -> FromErr { ERRLOG.with(|l| l.borrow_mut().push(s.as_ref().to_string())); FromErr(format!("lenient:{}", s.as_ref())) }
 """
 
 # (parse_err_ty, parse_err_fn, rust closure computing the expected Debug string of the error from s)
@@ -38,6 +53,12 @@ ERR_KINDS = [
     ("Rejected<String>", "rejected", '|s: &str| format!("{:?}", Rejected(s.to_string(), s.len()))'),
     ("Box<dyn std::error::Error + Send + Sync>", "boxed", '|s: &str| format!("{:?}", MyErr(s.to_string()))'),
     ("crate::MyErr", "crate::my_err", '|s: &str| format!("{:?}", MyErr(format!("<{}>", s)))'),
+] + [("MyErr", nm, '|s: &str| format!("{:?}", MyErr(format!("<{}>", s)))') for nm in
+     ("not_found", "parse_error", "from_str", "try_from", "default", "fallback", "error", "phf", "parse_err")] + [
+    ("FromErr", "FromErr::from", '|s: &str| format!("{:?}", FromErr(format!("from:{}", s)))'),
+    ("FromErr", "From::from", '|s: &str| format!("{:?}", FromErr(format!("from:{}", s)))'),
+    ("FromErr", "lenient", '|s: &str| format!("{:?}", FromErr(format!("lenient:{}", s)))'),
+    ("String", "String::from", '|s: &str| format!("{:?}", s.to_string())'),
 ]
 
 
@@ -50,7 +71,7 @@ def glue(spec, kind):
              % (spec.ty(), ty, spec.ty(), spec.ty(), ty, spec.ty()))
     body += "pub fn drive(m: &mut vmon::Mon) {\n"
     body += "    let drain = || errlog_drain();\n"
-    body += strgen.parse_glue(spec, extra=strgen.recased_extras(spec), err_expr=exp, log_drain="Some(&drain)") + "\n"
+    body += strgen.parse_glue(spec, extra=strgen.recased_extras(spec), err_expr=exp, log_drain=("None" if fn == "String::from" else "Some(&drain)")) + "\n"
     body += "}\n"
     return body
 
